@@ -159,6 +159,7 @@ func (ex *Exec) apiIntrinsic(name string, fn *ssa.Function, args []Value, fr *Fr
 		ex.freeze(args[0], 2)
 		ex.freezeGlobals()
 		ex.sharedFrom = len(ex.frozenHits)
+		ex.sharedOn = true
 		return nil, true
 	case "verifConcurrently":
 		n := ex.concInt(args[0], "verifConcurrently n")
@@ -180,6 +181,25 @@ func (ex *Exec) apiIntrinsic(name string, fn *ssa.Function, args []Value, fr *Fr
 				lines = append(lines, l)
 			}
 		}
+		// Eraser: a location written after the schema became shared must have a common lock over all its accesses
+		for _, k := range ex.sharedOrder {
+			inf := ex.sharedAcc[k]
+			if !inf.written || len(inf.lockset) > 0 || len(inf.unlocked) == 0 {
+				continue
+			}
+			l := inf.label + " written at " + inf.writeAt + " and " + strings.Join(inf.unlocked, ", ") + " with no lock held"
+			dup := false
+			for _, x := range lines {
+				if strings.HasPrefix(x, inf.label+" written at") {
+					dup = true
+				}
+			}
+			if !dup && !seen[l] {
+				seen[l] = true
+				lines = append(lines, l)
+			}
+		}
+		ex.sharedOn = false
 		ex.addEvent("sharedcheck", id, nil)
 		if len(lines) > 0 {
 			m, _, _ := ex.model(nil)
